@@ -60,7 +60,10 @@ def gen_c01(rng: random.Random, big: bool):
         elif r < 0.92:
             src.append({"k": "Alias", "m": f"al{rng.randint(0, 3)}", "src": rng.choice(daughters)})
         else:
-            src.append({"k": "CopyDecay", "m": f"cp{rng.randint(0, 2)}", "src": rng.choice(mothers)})
+            # (one copy in four is aimed at a name that has a Decay block of its own: whatever that statement is taken
+            #  to mean, the table read for a mother named in a Decay block is that block - C01's own clauses only)
+            tgt = rng.choice(mothers) if rng.random() < 0.25 else f"cp{rng.randint(0, 2)}"
+            src.append({"k": "CopyDecay", "m": tgt, "src": rng.choice(mothers)})
     # C01 is about well-formed texts: every alias used gets a definition somewhere
     have = {s["m"] for s in src if s["k"] == "ModelAlias"}
     for a in sorted(defined_alias - have):
@@ -129,7 +132,8 @@ def gen_c03(rng: random.Random, big: bool):
     src = []
     for i in range(npairs):
         a, b = f"My{i}sig", f"Myanti{i}sig"
-        real = rng.choice(pairs)
+        # (one pair in four: two aliases of one *self-conjugate* particle, declared conjugates of each other)
+        real = rng.choice(pairs if rng.random() < 0.75 else selfs)
         apairs.append((a, b))
         src.append({"k": "Alias", "m": a, "src": real})
         src.append({"k": "Alias", "m": b, "src": conj[real]})
